@@ -23,8 +23,8 @@ LEVEL_TEXT["C06"] = (
 )
 
 PROPS["C06"] = {
-    "gen": ["Cmplx", "Dynamics"],
-    "lean_props": "DspVerif.Props.C06",
+    "gen": ["Cmplx", "Dynamics", "Slice", "StepsBase", "StepsArray", "StepsSlice", "StepsFir", "StepsDelay"],
+    "lean_props": ["DspVerif.Props.C06", "DspVerif.Props.C06Gen"],
     "harness": [{"src": "c06.cpp", "cfg": "rel",
                  "tol": {"frame": (1e-11, 1e-290), # frameF: FftFilter model on the C01 model of the library's plans (same operation order): worst observed deviation 0
                          # (seeds 1,2,3 quick; seed 1 thorough) -> compared bit for bit
